@@ -16,7 +16,7 @@ pub fn prop() -> Prop {
         rule: "case = (content bytes, chunk schedule of the underlying Read, operation sequence); exhaustive part: content length 0..=10 x 21 schedules over {1,2,3,5,whole} x all sequences of <= 3 ops from a 14-op set; random part: content <= 3000 bytes, 9 schedule shapes, <= 24 ops from the full op set. Non-trivial = some multi-byte read straddles a boundary between two stream chunks; distinct = hash of (content length, schedule, op sequence).",
         assumptions: vec![
             "release profile: debug_assert!-guarded unsafe copies in ReadAdapter::read_exact are compiled as shipped",
-            "comparison stops at the first error (the ByteReader trait says a failed reader is not rolled back)",
+            "the property quantifies over every operation sequence, so a sequence goes on after a failed read: both readers must report the same error and keep coinciding afterwards (the ByteReader trait does not promise a roll-back, but the slice reader - the reference here - leaves its position where the failed operation found it, and the adapter is required to agree with it)",
             "check_eor is compared one-directionally, exactly as the property states it: the adapter may be optimistic, it must never report missing data that is available",
             "read_many element counts are bounded by 4096 so that its documented pre-allocation stays small",
         ],
@@ -161,7 +161,7 @@ fn lockstep(content: &[u8], schedule: &[usize], ops: &[Op]) -> Verdict {
                 (_, Op::ReadU32) => 4,
                 (_, Op::ReadU64) => 8,
                 (_, Op::ReadU128) => 16,
-                (Out::U(_), Op::ReadUsize) => (content[model_pos].trailing_zeros() as usize + 1).min(9),
+                (Out::U(_), Op::ReadUsize) => (content.get(model_pos).copied().unwrap_or(1).trailing_zeros() as usize + 1).min(9),
                 _ => 0,
             };
             if let Op::CheckEor(k) = op {
@@ -199,7 +199,11 @@ fn lockstep(content: &[u8], schedule: &[usize], ops: &[Op]) -> Verdict {
                 if model_pos < content.len() {
                     classes.push("eof_mid_value");
                 }
-                break;
+                // the sequence goes on after a failed read: both readers reported the same error, and whatever
+                // they do next must still coincide (the slice reader consumes nothing on a failed read)
+                classes.push("continued_after_error");
+                prev_peek = false;
+                continue;
             }
             if consumed > 1 {
                 // which chunk boundaries did the stream produce so far
